@@ -162,10 +162,13 @@ func (br *BodyBuffer) Reset() error {
 	if environment.HasAccessToFS && br.writer != nil {
 		w := br.writer
 		br.writer = nil
-		if err := w.Close(); err != nil {
-			return err
+		// The spill file has to go even if closing it fails; the first error is reported.
+		closeErr := w.Close()
+		removeErr := os.Remove(w.Name())
+		if closeErr != nil {
+			return closeErr
 		}
-		return os.Remove(w.Name())
+		return removeErr
 	}
 
 	return nil
